@@ -84,7 +84,7 @@ def run(ctx: Ctx):
     import_amisc()
     from amisc import System
     rng = ctx.rng
-    tmp = WORK / 'c12_tmp'
+    tmp = WORK / f'c12_tmp_{os.getpid()}'
     shutil.rmtree(tmp, ignore_errors=True)
     tmp.mkdir(parents=True, exist_ok=True)
     cwd0 = os.getcwd()
